@@ -1175,7 +1175,25 @@ def restore_spelling(fn, qname):
                     flat.append(v)
             if changed:
                 out.append(ast.BoolOp(op=n.op, values=flat))
-            if len(n.values) <= 4:
+            # operands may only be permuted when none of them guards another (`x and x.y`): the order of
+            # such a pair is part of the meaning
+            def guards(u, v):
+                c = u.operand if isinstance(u, ast.UnaryOp) and isinstance(u.op, ast.Not) else u
+                if isinstance(c, ast.Compare) and len(c.ops) == 1 and isinstance(c.ops[0], (ast.Is, ast.IsNot)):
+                    c = c.left
+                ch = _chain(c) if isinstance(c, ast.Attribute) else (c.id if isinstance(c, ast.Name) else None)
+                if ch is None:
+                    return False
+                for x in ast.walk(v):
+                    xc = _chain(x) if isinstance(x, ast.Attribute) else None
+                    if xc and xc.startswith(ch + "."):
+                        return True
+                    if isinstance(x, (ast.Subscript, ast.Call)) and isinstance(getattr(x, "value", getattr(x, "func", None)), ast.Name) \
+                            and getattr(x, "value", getattr(x, "func", None)).id == ch:
+                        return True
+                return False
+            independent = not any(guards(u, v) for u in n.values for v in n.values if u is not v)
+            if len(n.values) <= 4 and independent:
                 import itertools
                 for perm in itertools.permutations(n.values):
                     if list(perm) != list(n.values):
